@@ -225,6 +225,43 @@ def run_property(prop, tier, seed, replay=None):
                 f = prop.oracle(c, li, model.get(c.cid, {}))
             if f:
                 failures.append((c, f))
+        # 4b. confirmation: a failure / disagreement must reproduce when its case is run again, a few cases per process and
+        # with a generous watchdog — a loaded machine (the checks may run beside each other) must not turn a slow case
+        # into a HANG or a missed race window into a finding.  (More than CONFIRM_MAX failing cases: not a fluke; the first
+        # CONFIRM_MAX are confirmed, the rest are kept as they are.)
+        CONFIRM_MAX = 64
+        suspects = []
+        for c, _ in failures[:CONFIRM_MAX] + disagreements[:CONFIRM_MAX]:
+            if all(c is not x for x in suspects):
+                suspects.append(c)
+        if suspects:
+            old_ids = {id(c): c.cid for c in suspects}
+            old_stall = core.ENV.get("RXH_STALL_MS")
+            core.ENV["RXH_STALL_MS"] = "8000"
+            try:
+                impl2, model2, errs2 = run_all(prop, suspects)
+            finally:
+                if old_stall is None:
+                    core.ENV.pop("RXH_STALL_MS", None)
+                else:
+                    core.ENV["RXH_STALL_MS"] = old_stall
+            again_f, again_d = set(), set()
+            for c in suspects:
+                li = impl2.get(c.cid, {})
+                if any(b == "HANG" for b in li.values()) or prop.oracle(c, li, model2.get(c.cid, {})):
+                    again_f.add(id(c))
+                if core.compare_case(c, impl2, model2, prop.project, prop.compare_from(c)):
+                    again_d.add(id(c))
+            for c in suspects:
+                c.cid = old_ids[id(c)]
+            dropped_f = [c for c, _ in failures[:CONFIRM_MAX] if id(c) not in again_f]
+            dropped_d = [c for c, _ in disagreements[:CONFIRM_MAX] if id(c) not in again_d]
+            if dropped_f or dropped_d:
+                notes.append(f"not reproduced on a second run (dropped): {len(dropped_f)} oracle failures, "
+                             f"{len(dropped_d)} disagreements")
+                log(f"[{pid}] not reproduced on a second run: {len(dropped_f)} failures, {len(dropped_d)} disagreements")
+            failures = [(c, f) for c, f in failures[:CONFIRM_MAX] if id(c) in again_f] + failures[CONFIRM_MAX:]
+            disagreements = [(c, d) for c, d in disagreements[:CONFIRM_MAX] if id(c) in again_d] + disagreements[CONFIRM_MAX:]
         failures += prop.cross_oracle(cases, impl, model)
 
     # 5. verdict
